@@ -139,7 +139,7 @@ Pieces(v) ==
 \* values whose printed form the properties do not determine
 RECURSIVE SinkSpecified(_)
 SinkSpecified(v) ==
-  CASE v.t \in {"fn", "gofn", "iter", "opq"} -> FALSE
+  CASE v.t \in {"fn", "gofn", "iter", "opq", "rec"} -> FALSE
     [] v.t = "flt"    -> FloatPrintable(v)
     [] v.t = "arr"    -> \A i \in 1..Len(v.xs) : SinkSpecified(v.xs[i])
     [] v.t = "chunks" -> \A i \in 1..Len(v.cs) : SinkSpecified(v.cs[i])
@@ -231,6 +231,10 @@ EvalE(e, st) ==
                         THEN Ok(l.v.m[CHOOSE k \in DOMAIN l.v.m : KeyChars(k) = i.v.s], l.st)
                         ELSE Ok(Nil, l.st)
             [] OTHER -> Err(l.st))
+    [] e.t = "dot"  ->                                  \* field selection on a struct value
+         LET l == EvalE(e.l, st) IN IF l.k # "ok" THEN NoUnk(l) ELSE
+         IF l.v.t # "rec" THEN (IF l.v.t = "nil" THEN Ok(Nil, l.st) ELSE Err(l.st))
+         ELSE IF e.n \in DOMAIN l.v.f THEN Ok(l.v.f[e.n], l.st) ELSE Err(l.st)
     [] e.t = "fn"   -> Ok(Fn(e.ps, e.body), st)
     [] e.t = "assign" ->
          LET r == EvalE(e.e, st) IN IF r.k # "ok" THEN NoUnk(r) ELSE
